@@ -53,6 +53,8 @@ class Obligation:
 def _loc(loc):
     if not loc:
         return None
+    if isinstance(loc, str):
+        return loc
     return "%s:%s" % (loc[0], loc[1])
 
 
